@@ -1,3 +1,5 @@
+#[cfg(kanal_verif)]
+use crate::verif::core;
 use crate::{
     internal::{acquire_internal, Internal},
     pointer::KanalPtr,
